@@ -247,3 +247,30 @@ async fn vf_order_with_unusual_target_paths() {
     }
     println!("VF-SUMMARY test=order_with_unusual_target_paths checked={} nontrivial={} bad={}", checked, checked, bad);
 }
+
+// C15 / C14: the log stream address and the lock address are two different endpoints in every spelling of the `server` section that leaves
+// ports out: a run (which holds the lock's port for its whole duration) must still be able to reach a listener on the log port.
+#[test]
+fn vf_server_section_defaults() {
+    let (mut checked, mut bad) = (0u64, 0u64);
+    let spellings = [
+        r#"{"targets":[]}"#,
+        r#"{"targets":[],"server":{"log":{},"lock":{}}}"#,
+        r#"{"targets":[],"server":{"log":{"host":"127.0.0.1"},"lock":{"host":"127.0.0.1"}}}"#,
+        r#"{"targets":[],"server":{"log":{"bind_timeout_ms":500},"lock":{"bind_timeout_ms":500}}}"#,
+    ];
+    for s in spellings {
+        checked += 1;
+        match serde_json::from_str::<core::Config>(s) {
+            Ok(c) => {
+                let (l, k) = (format!("{}:{}", c.server.log.host, c.server.log.port), format!("{}:{}", c.server.lock.host, c.server.lock.port));
+                if c.server.log.port != 5918 || l == k {
+                    bad += 1;
+                    println!("VF-FAIL configuration {} :: log stream address {} (documented default port 5918), lock address {}: the log port must default to 5918 and differ from the lock's (C15) (C14)", s, l, k);
+                }
+            }
+            Err(_) => { checked -= 1; } // a spelling the parser does not accept says nothing about the defaults
+        }
+    }
+    println!("VF-SUMMARY test=server_section_defaults checked={} nontrivial={} bad={}", checked, checked, bad);
+}
